@@ -506,7 +506,7 @@ theorem parseTrace_spec (trace : List TraceLine) (delay : Nat) :
     (parseTrace trace delay).WF ∧ ∀ c, (parseTrace trace delay).pending c = shareOf trace c := by
   unfold parseTrace
   simp only []
-  have := parseTrace_fold_spec delay trace ⟨SimQueue.empty, ⟨100 * msec, []⟩, ⟨100 * msec, []⟩, 0, 0⟩ SimQueue.empty_wf
+  have := parseTrace_fold_spec delay trace ⟨SimQueue.empty, ⟨Gen.SIM_PARSE_WINDOW_NS, []⟩, ⟨Gen.SIM_PARSE_WINDOW_NS, []⟩, 0, 0⟩ SimQueue.empty_wf
   simp only [] at this
   constructor
   · exact ⟨this.1.client, this.1.server⟩
